@@ -10,7 +10,7 @@ Definition ex_fres (s o a : N) (p : bytes) : bytes := rev p.
    parameters behaves the same way for the empty payload of the client's Cancel frame) *)
 Definition ex_ok (s o a : N) (p : bytes) : bool := true.
 Definition ex_callerr (s o a : N) (p : bytes) : bool := false.
-Definition run_ex (cf : cfg) (ls : list label) : state := exec cf ex_target ex_fres ex_ok ex_callerr init ls.
+Definition run_ex (cf : cfg) (ls : list label) : state := exec cf pinned_filter_pass ex_target ex_fres ex_ok ex_callerr init ls.
 Definition p12 : bytes := [x01; x02].
 Definition p345 : bytes := [x03; x04; x05].
 
